@@ -607,6 +607,13 @@ impl private::StoreCallbacks<AnnotationDataSet> for AnnotationStore {
                 annotations.insert(annotation.handle_or_err()?);
             }
         }
+        //annotations that target a key or data item of this set (as metadata) depend on it too
+        if let Some(map) = self.key_annotation_metamap.data.get(handle.as_usize()) {
+            annotations.extend(map.data.iter().flatten());
+        }
+        if let Some(map) = self.data_annotation_metamap.data.get(handle.as_usize()) {
+            annotations.extend(map.data.iter().flatten());
+        }
         for a_handle in annotations {
             <AnnotationStore as StoreFor<Annotation>>::remove(self, a_handle)?;
         }
